@@ -22,7 +22,13 @@ def check_typing(ctx, case):
     rec = impl.CircularRecord(impl.Seq(wd), id="x")
     rw = str(rec.reverse_complement().seq)
     b = T.evaluate(cls, rw)
-    if (a[0] == "valid") != (b[0] == "valid"):
+    site = cls.cutter.site
+    two_sites = gen.circ_count(wd.upper(), site) == 1 and gen.circ_count(wd.upper(), gen.rc(site)) == 1
+    if not two_sites:
+        # outside the property's hypothesis (a mutation created or destroyed a site: with several fits the
+        # leftmost one on each strand need not be mirror images); correspondence only
+        ctx.note("not-exactly-two-sites")
+    elif (a[0] == "valid") != (b[0] == "valid"):
         ctx.fail("{}: {!r} is {} but its reverse complement is {}".format(cls.__name__, wd, a[0], b[0]), case)
     elif a[0] == "valid":
         k = len(a[1])
